@@ -1,18 +1,27 @@
 """C17 -- bond detection equals the minimum-image covalent-radius rule.
 
-Deductive part: detect_bonds.max_bond_length against the spec r1 + r2 + 0.45*[either element is a non-metal] over the real
-COVALENT_RADII / NON_METALS tables (symbolic element names, key lookups as ite chains), and its symmetry.  The pair enumeration of
-detect_bonds and the 27-image minimum are BOUNDED on the real code (bounded/C17.py); bridge lemma G2 (27 images suffice) is ASSUMED.
+Deductive part:
+  * detect_bonds.max_bond_length against the spec r1 + r2 + 0.45*[either element is a non-metal] over the real COVALENT_RADII /
+    NON_METALS tables (symbolic element names, key lookups as ite chains), and its symmetry;
+  * the two nested loops of detect_bonds under inductive invariants (ghost rank d(a, j) = number of bonded pairs (a, a+1+j') with
+    j' < j plus all bonded pairs of earlier first atoms): the returned array lists exactly the pairs a < b with Near(a, b), each once,
+    where Near(a, b) is the value of `np.any(cdist(positions[a] + uc_offsets, [positions[b]], "euclidean") < max_bond_length(el[a], el[b]))`
+    with uc_offsets = uc_neighbor_offsets(cell), or the single zero offset when there is no cell.
+The meaning of that numpy/scipy composite (some listed offset brings the two atoms closer than the cutoff), the contents of
+uc_neighbor_offsets (27 lattice vectors) and bridge lemma G2 (27 images suffice) are ASSUMED and exercised by bounded/C17.py on the real code.
 """
 import z3
 
-from pyvc.values import Sym, StrS, OutOfSubset, to_z3
+from pyvc.values import Sym, SymSeq, RowVal, Opaque, StrS, OutOfSubset, to_z3
+from pyvc.interp import FuncSpec, LoopSpec
+from pyvc.models_py import ObjS
 from pyvc import models_py
 
 META = {
-    'level': 'other',
-    'explanation': "cutoff rule proved for all element pairs of the tables; pair enumeration and image handling of detect_bonds checked "
-                   "with a stated bound on the real code (loops not yet under invariants)",
+    'level': 'proof',
+    'explanation': "cutoff rule proved for all element pairs of the tables; both pair loops of detect_bonds under inductive invariants: exactly the "
+                   "pairs i<j passing the code's distance test, each once; the meaning of the numpy/scipy distance test and the 27 offsets are "
+                   "assumed and exercised with a stated bound on the real code",
     'trusted_base': ["A2: radii compared as reals", "bridge lemma G2 (DESIGN section 8): for cell widths > cutoff some periodic image is within the cutoff iff one of the 27 neighbour images is",
                      "z3 soundness", "pyvc symbolic interpreter"],
 }
@@ -74,5 +83,185 @@ def build(S):
         S.add_interp_obligations(I, replay=replay_for)
     S.guarded('max_bond_length', run)
     S.clause('cutoff rule (all 97 x 97 element pairs, symbolically)', 'PROVED')
-    S.clause('pairs i<j once each; smallest distance over the 27 images; shift / reorder invariance', 'BOUNDED (real code)')
+    prove_pair_loops(S)
+    S.clause('pairs i<j, each once, exactly those for which the distance test of the code succeeds', 'PROVED (both loops under invariants, with and without cell)')
+    S.clause('distance test = smallest distance over the listed offsets below the cutoff; shift / reorder invariance', 'BOUNDED (real code); numpy / scipy composite ASSUMED')
     S.clause('27 images = all images', 'ASSUMED (bridge lemma G2, widths > cutoff)')
+
+
+INT, REAL = z3.IntSort(), z3.RealSort()
+
+
+def prove_pair_loops(S):
+    S.function(REL, 'detect_bonds')
+    for with_cell in (True, False):
+        S.guarded('detect_bonds[%s]' % ('cell' if with_cell else 'no-cell'), lambda wc=with_cell: _pair_loops(S, wc))
+
+
+def _pair_loops(S, with_cell):
+    I = S.interp()
+    I.allow_merge = False
+    models_py.install(I)
+    reg = I.reg
+    tag = 'detect_bonds[%s]' % ('cell' if with_cell else 'no-cell')
+    st = {}
+    # ---- assumed library contracts: the distance test is a fixed function of (position a, offsets, position b, cutoff)
+    images = reg.ufunc('images_of', REAL, REAL, REAL, ObjS, ObjS)               # atom1 + uc_offsets
+    dists = reg.ufunc('cdist_euclidean_to', ObjS, REAL, REAL, REAL, ObjS)       # cdist(X, [atom2], "euclidean")
+    below = reg.ufunc('elementwise_lt', ObjS, REAL, ObjS)                       # ss < c
+    any_ = reg.ufunc('np_any', ObjS, z3.BoolSort())
+    offsets_of = reg.ufunc('uc_neighbor_offsets', ObjS, ObjS)
+    cutoff = reg.ufunc('max_bond_length', StrS, StrS, REAL)
+    known = reg.ufunc('in_radius_table', StrS, z3.BoolSort())
+    zero_offsets = z3.Const('single_zero_offset', ObjS)
+
+    def m_offsets(ctx, args, kwargs):
+        I.reg.assumptions_used.add("uc_neighbor_offsets(cell) enters as an uninterpreted value (its 27 lattice vectors are exercised by bounded/C17.py)")
+        return Opaque(offsets_of(models_py.to_obj(I, args[0])), 'uc_offsets')
+
+    def m_array(ctx, args, kwargs):
+        v = args[0]
+        if isinstance(v, SymSeq):
+            return v
+        if isinstance(v, list) and v == []:
+            return SymSeq(z3.IntVal(0), [z3.K(INT, z3.IntVal(0)), z3.K(INT, z3.IntVal(0))], 2, 'ndarray', 'no_bonds')
+        if isinstance(v, list) and len(v) == 1 and isinstance(v[0], list) and len(v[0]) == 3 and all(x == 0 for x in v[0]):
+            return Opaque(zero_offsets, 'zero_offsets')
+        raise OutOfSubset("np.array of %r" % (v,))
+
+    def m_binop(ctx, op, a, b):
+        if op == 'Add' and isinstance(a, RowVal) and len(a) == 3 and isinstance(b, Opaque):
+            return Opaque(images(*[to_z3(x, sort=REAL) for x in a], b.term), 'images')
+        raise OutOfSubset("binary %s on %r and %r" % (op, type(a).__name__, type(b).__name__))
+
+    def m_cdist(ctx, args, kwargs):
+        if len(args) != 3 or args[2] != 'euclidean' or kwargs:
+            raise OutOfSubset("cdist is not called as cdist(X, Y, 'euclidean')")
+        X, Y = args[0], args[1]
+        if not (isinstance(X, Opaque) and isinstance(Y, list) and len(Y) == 1 and isinstance(Y[0], RowVal) and len(Y[0]) == 3):
+            raise OutOfSubset("cdist arguments are not (images of atom1, [atom2])")
+        return Opaque(dists(X.term, *[to_z3(x, sort=REAL) for x in Y[0]]), 'dists')
+
+    def m_compare(ctx, op, a, b):
+        if op == 'Lt' and isinstance(a, Opaque) and isinstance(b, Sym) and b.e.sort() == REAL:
+            return Opaque(below(a.term, b.e), 'below')
+        raise OutOfSubset("comparison %s between %r and %r" % (op, a, b))
+
+    def m_any(ctx, args, kwargs):
+        if len(args) == 1 and isinstance(args[0], Opaque) and not kwargs:
+            return Sym(any_(args[0].term))
+        raise OutOfSubset("np.any of %r" % (args,))
+
+    def m_cutoff(ctx, args, kwargs):
+        # contract of max_bond_length, proved above: defined for elements of the radius table, value = the cutoff rule
+        e1, e2 = [to_z3(a) for a in args]
+        I.oblige("%s/pre/max_bond_length/elements-in-radius-table" % tag, z3.And(known(e1), known(e2)), 'pre')
+        return Sym(cutoff(e1, e2))
+
+    I.models['mofun.uc_neighbor_offsets'] = m_offsets
+    I.models['mofun/mofun.py:uc_neighbor_offsets'] = m_offsets
+    I.models['numpy.array'] = m_array
+    I.models['binop.fallback'] = m_binop
+    I.models['scipy.spatial.distance.cdist'] = m_cdist
+    I.models['compare.fallback'] = m_compare
+    I.models['numpy.any'] = m_any
+    I.models['%s:max_bond_length' % REL] = m_cutoff
+
+    def near(a, b):
+        P, E, O = st['pos'], st['els'], st['offs']
+        pa = [z3.Select(c, a) for c in P.cols]
+        pb = [z3.Select(c, b) for c in P.cols]
+        return any_(below(dists(images(*pa, O), *pb), cutoff(z3.Select(E.cols[0], a), z3.Select(E.cols[0], b))))
+
+    # ---- ghost rank (definitions by recursion on the loop counters; conservative)
+    d = z3.Function('rank_d', INT, INT, INT)       # d(a, j): position of the pair (a, a+1+j) if it is bonded
+    base = z3.Function('rank_base', INT, INT)      # base(a) = number of bonded pairs whose first atom is < a
+    N = z3.Int('N')
+    ga, gj = z3.Int('ga'), z3.Int('gj')
+    I.base_axioms.append(base(0) == 0)
+    I.base_axioms.append(z3.ForAll([ga], z3.Implies(z3.And(ga >= 0), d(ga, 0) == base(ga)), patterns=[d(ga, 0)]))
+    I.base_axioms.append(z3.ForAll([ga], z3.Implies(z3.And(ga >= 0), d(ga, 0) == base(ga)), patterns=[base(ga)]))
+    st['ghost'] = (d, base)
+
+    def install_ghost_axioms():
+        I.assume(z3.ForAll([ga, gj], z3.Implies(z3.And(ga >= 0, gj >= 0),
+                 d(ga, gj + 1) == d(ga, gj) + z3.If(near(ga, ga + 1 + gj), 1, 0)), patterns=[d(ga, gj)]))
+        I.assume(z3.ForAll([ga], z3.Implies(ga >= 1, base(ga) == d(ga - 1, N - ga)), patterns=[base(ga)]))
+
+    def listed(B, kz, iz):
+        """(S) every entry is a bonded pair a < b already visited, stored at its rank; (C) every visited bonded pair is stored at its rank."""
+        p, a, j = z3.Int('lp'), z3.Int('la'), z3.Int('lj')
+        ea, eb = z3.Select(B.cols[0], p), z3.Select(B.cols[1], p)
+        visited = lambda x, jj: z3.Or(x < kz, z3.And(x == kz, jj < iz))
+        S_ = z3.ForAll([p], z3.Implies(z3.And(p >= 0, p < B.length), z3.And(
+            0 <= ea, ea < eb, eb < N, near(ea, eb), d(ea, eb - ea - 1) == p, visited(ea, eb - ea - 1))), patterns=[z3.Select(B.cols[0], p)])
+        C_ = z3.ForAll([a, j], z3.Implies(z3.And(a >= 0, j >= 0, a + 1 + j < N, near(a, a + 1 + j), visited(a, j)), z3.And(
+            d(a, j) >= 0, d(a, j) < B.length, z3.Select(B.cols[0], d(a, j)) == a, z3.Select(B.cols[1], d(a, j)) == a + 1 + j)), patterns=[d(a, j)])
+        return S_, C_
+
+    def inv_outer(view, k):
+        B = view['bonds']
+        k = k if z3.is_expr(k) else z3.IntVal(k)
+        S_, C_ = listed(B, k, z3.IntVal(0))
+        return [('count-is-rank-of-first-atom', B.length == base(k)), ('entries-are-visited-bonded-pairs-at-their-rank', S_), ('visited-bonded-pairs-are-listed', C_)]
+
+    def inv_inner(view, k):
+        B = view['bonds']
+        k = k if z3.is_expr(k) else z3.IntVal(k)
+        o = to_z3(view['idx1'])
+        S_, C_ = listed(B, o, k)
+        return [('count-is-rank-of-next-pair', B.length == d(o, k)), ('entries-are-visited-bonded-pairs-at-their-rank', S_), ('visited-bonded-pairs-are-listed', C_)]
+
+    I.funcspecs['%s:detect_bonds' % REL] = FuncSpec(loops=[
+        LoopSpec('(idx1, atom1) in enumerate(structure.positions)', inv=inv_outer, havoc_types={'bonds': ('tuple', ['int', 'int'])}),
+        LoopSpec('(i, atom2) in enumerate(structure.positions[idx1 + 1:])', inv=inv_inner)])
+    clo = I.closure_for(REL, 'detect_bonds')
+
+    def thunk():
+        I.assume(N >= 0)
+        pos = SymSeq(N, [z3.Array('pos_%s' % c, INT, REAL) for c in 'xyz'], 3, 'ndarray', 'positions')
+        els = SymSeq(N, [z3.Array('elements', INT, StrS)], None, 'list', 'elements')
+        t = z3.Int('rt')
+        I.assume(z3.ForAll([t], z3.Implies(z3.And(t >= 0, t < N), known(z3.Select(els.cols[0], t))), patterns=[z3.Select(els.cols[0], t)]))   # requires: elements of the radius table
+        if with_cell:
+            cell = Opaque(z3.Const('cell', ObjS), 'cell')
+            st['offs'] = offsets_of(cell.term)
+        else:
+            cell = None
+            st['offs'] = zero_offsets
+        st.update(pos=pos, els=els)
+        install_ghost_axioms()
+        structure = I.state.alloc('Atoms', {'__class__': 'Atoms', 'positions': pos, 'elements': els, 'cell': cell})
+        return I.call_closure(clo, [structure], {})
+
+    paths = I.explore(thunk)
+    nret = 0
+    for i, p in enumerate(paths):
+        if p.outcome == 'loopend':
+            continue
+        if p.outcome != 'return':
+            raise OutOfSubset("detect_bonds raises")
+        nret += 1
+        R = p.value
+        if not isinstance(R, SymSeq) or R.width != 2:
+            raise OutOfSubset("detect_bonds does not return the list of index pairs")
+        q, r, a, b = z3.Int('pq'), z3.Int('pr'), z3.Int('pa'), z3.Int('pb')
+        ea, eb = z3.Select(R.cols[0], q), z3.Select(R.cols[1], q)
+        S.add(I, "%s/post/every-row-is-a-bonded-pair-i<j#%d" % (tag, i), p.pc,
+              z3.ForAll([q], z3.Implies(z3.And(q >= 0, q < R.length), z3.And(0 <= ea, ea < eb, eb < N, near(ea, eb)))),
+              clause='returns only pairs i<j that pass the distance test')
+        S.add(I, "%s/post/every-bonded-pair-i<j-is-a-row#%d" % (tag, i), p.pc,
+              z3.ForAll([a, b], z3.Implies(z3.And(0 <= a, a < b, b < N, near(a, b)), z3.And(d(a, b - a - 1) >= 0, d(a, b - a - 1) < R.length,
+                        z3.Select(R.cols[0], d(a, b - a - 1)) == a, z3.Select(R.cols[1], d(a, b - a - 1)) == b))),
+              clause='returns every pair i<j that passes the distance test')
+        S.add(I, "%s/post/each-pair-once#%d" % (tag, i), p.pc,
+              z3.ForAll([q, r], z3.Implies(z3.And(q >= 0, q < R.length, r >= 0, r < R.length,
+                        z3.Select(R.cols[0], q) == z3.Select(R.cols[0], r), z3.Select(R.cols[1], q) == z3.Select(R.cols[1], r)), q == r)),
+              clause='each pair once')
+        S.add_canary(I, "%s/canary#%d" % (tag, i), [h for h in p.pc if not z3.is_quantifier(h)])
+    if nret == 0:
+        raise OutOfSubset("no returning path of detect_bonds")
+    S.add_interp_obligations(I)
+    spec = I.funcspecs['%s:detect_bonds' % REL]
+    if len(spec.seen_loops) != 2:
+        raise OutOfSubset("both loops of detect_bonds must be cut at their invariants")
